@@ -12,23 +12,23 @@
    segments of every step equal under Norm).  What a FOLLOWING smooth command reflects is
    compared when it is used, not before.
 
-   The code has three decision-level defects (known findings of C05).  Each is guarded by a
-   constant that restricts the INPUTS to those the decisions are right for; with a guard lifted TLC
-   finds the counterexample (cfgs SvgPathDesign_noZ / _noDeg / _noZeroL, run by the check as a
-   sensitivity self-test of this model, expected to fail):
-     GuardZ      after closepath only moveto/closepath   (Z keeps cx,cy,qx,qy: `...Z C` -> `z S`)
-     GuardDeg    no smooth command after a degenerate curve that was turned into a line
-     GuardZeroL  no lineto / curve that simplifies to a zero-length line directly after a curve (it is
-                 dropped and the next command, possibly rewritten to a smooth one, follows the curve)
-   A mismatch between this model and the code is DRIFT information, never a verdict.          *)
-EXTENDS SvgPath
-CONSTANTS MaxN, Coords, CtrlCoords, Letters, GuardZ, GuardDeg, GuardZeroL
-VARIABLES si, so, d, n, last, ok
-vars == <<si, so, d, n, last, ok>>
+   The decisions modelled are those of the code AFTER the fix commits 06800a3 (closepath resets the
+   control points), ed5d06b (a degenerate curve stays a curve when the following command is smooth
+   and would reflect a control point other than the end point), 2008ad3 (a zero-length line directly
+   after a curve is kept).  The old decisions are kept as switches: with FixZ / FixDeg / FixZeroL =
+   FALSE - or ForgetCp = FALSE, the design in which the control point of a curve that was turned into
+   a line is not forgotten - the model is a WRONG design and TLC must find the counterexample (cfgs
+   SvgPathDesign_noZ / _noDeg / _noZeroL / _noForget, run by the check as vacuity guards of Refines:
+   expected to fail).  A mismatch between this model and the code is DRIFT information, never a
+   verdict.                                                                              *)
+EXTENDS SvgPathDecide
+CONSTANTS MaxN, Coords, CtrlCoords, Letters
+VARIABLES si, so, d, n, exp, ok
+vars == <<si, so, d, n, exp, ok>>
 
-\* d: the shortener's state.  last: what the guards need to know about the previous input group.
-D0 == [x |-> 0, y |-> 0, x0 |-> 0, y0 |-> 0, cnan |-> TRUE, cx |-> 0, cy |-> 0, qnan |-> TRUE, qx |-> 0, qy |-> 0]
-Last0 == [z |-> FALSE, degc |-> FALSE, degq |-> FALSE]
+\* d: the shortener's state.  exp: what the previous step assumed about this one (the shortener decides about
+\* the last coordinate set of a command knowing the NEXT command letter - a one-letter look-ahead).
+Exp0 == [cls |-> "any", same |-> FALSE, u |-> 0, rel |-> FALSE]
 
 Pairs(S) == {<<a, b>> : a \in S, b \in S}
 Args(u) ==
@@ -41,115 +41,43 @@ Args(u) ==
 Upper == {77, 76, 72, 86, 67, 83, 81, 84, 65, 90}
 
 ---------------------------------------------------------------------------
-(* copyInstruction for ONE coordinate set.  c = command letter, v = its numbers, multi = the set is
-   part of a command with several sets ("only change to a line if we start with s/S and none
-   follow"), alt = emit the other-case twin.  Result: new shortener state and the emitted command
-   (letter 0 = nothing emitted).                                                     *)
-Shift(u, v, dx, dy) ==                       \* shortenAltPosInstruction: which numbers are shifted
-  CASE u \in {76, 84, 77} -> <<v[1] + dx, v[2] + dy>>
-    [] u = 72 -> <<v[1] + dx>>
-    [] u = 86 -> <<v[1] + dy>>
-    [] u \in {83, 81} -> <<v[1] + dx, v[2] + dy, v[3] + dx, v[4] + dy>>
-    [] u = 67 -> <<v[1] + dx, v[2] + dy, v[3] + dx, v[4] + dy, v[5] + dx, v[6] + dy>>
-    [] u = 65 -> <<v[1], v[2], v[3], v[4], v[5], v[6] + dx, v[7] + dy>>
-    [] OTHER -> v
-Emit(cmd, v, rel, alt, p) ==
-  IF ~alt THEN [c |-> cmd, a |-> v]
-  ELSE IF rel THEN [c |-> cmd - 32, a |-> Shift(cmd - 32, v, p.x, p.y)]
-       ELSE [c |-> cmd + 32, a |-> Shift(cmd, v, 0 - p.x, 0 - p.y)]
-
-Copy(p, c, v, multi, alt) ==
-  LET rel == IsRel(c)
-      u == IF rel THEN c - 32 ELSE c
-      lo(k) == IF rel THEN k + 32 ELSE k                    \* same case as the input command
-      di == Len(v)
-      ax == IF u = 72 THEN v[1] + (IF rel THEN p.x ELSE 0) ELSE IF u = 86 THEN p.x ELSE v[di - 1] + (IF rel THEN p.x ELSE 0)
-      ay == IF u = 72 THEN p.y ELSE IF u = 86 THEN v[1] + (IF rel THEN p.y ELSE 0) ELSE v[di] + (IF rel THEN p.y ELSE 0)
-      bx == IF rel THEN p.x ELSE 0
-      by == IF rel THEN p.y ELSE 0
-      \* --- cubic family
-      isCub == u \in {67, 83}
-      rcx == IF p.cnan THEN p.x ELSE 2 * p.x - p.cx          \* "p.cx, p.cy = 2*p.x-p.cx, 2*p.y-p.cy"
-      rcy == IF p.cnan THEN p.y ELSE 2 * p.y - p.cy
-      cp2x == IF isCub THEN v[di - 3] + bx ELSE 0
-      cp2y == IF isCub THEN v[di - 2] + by ELSE 0
-      c1x == IF u = 67 THEN v[1] + bx ELSE rcx
-      c1y == IF u = 67 THEN v[2] + by ELSE rcy
-      toS == u = 67 /\ c1x = rcx /\ c1y = rcy                 \* "switch from C to S whenever possible"
-      cmdC == IF toS THEN 83 ELSE u
-      vC == IF toS THEN SubSeq(v, 3, 6) ELSE v
-      cubLine == /\ isCub
-                 /\ (cmdC = 67 \/ ~multi)
-                 /\ ((c1x = p.x /\ c1y = p.y) \/ (c1x = ax /\ c1y = ay))
-                 /\ ((cp2x = p.x /\ cp2y = p.y) \/ (cp2x = ax /\ cp2y = ay))
-      \* --- quadratic family
-      isQ == u \in {81, 84}
-      rqx == IF p.qnan THEN p.x ELSE 2 * p.x - p.qx
-      rqy == IF p.qnan THEN p.y ELSE 2 * p.y - p.qy
-      qpx == IF u = 81 THEN v[1] + bx ELSE rqx
-      qpy == IF u = 81 THEN v[2] + by ELSE rqy
-      toT == u = 81 /\ qpx = rqx /\ qpy = rqy
-      cmdQ == IF toT THEN 84 ELSE u
-      vQ == IF toT THEN SubSeq(v, 3, 4) ELSE v
-      qLine == /\ isQ
-               /\ (cmdQ = 81 \/ ~multi)
-               /\ ((qpx = p.x /\ qpy = p.y) \/ (qpx = ax /\ qpy = ay))
-      \* --- command and numbers after the curve decisions
-      cmd1 == IF cubLine \/ qLine THEN 76 ELSE IF isCub THEN cmdC ELSE IF isQ THEN cmdQ ELSE u
-      v1 == IF cubLine \/ qLine THEN SubSeq(v, di - 1, di) ELSE IF isCub THEN vC ELSE IF isQ THEN vQ ELSE v
-      \* --- "switch from L to H or V whenever possible", zero-length line dropped
-      isL == cmd1 = 76
-      dropL == isL /\ ax = p.x /\ ay = p.y
-      cmd2 == IF isL /\ ~dropL /\ ax = p.x THEN 86 ELSE IF isL /\ ~dropL /\ ay = p.y THEN 72 ELSE cmd1
-      v2 == IF cmd2 = 86 /\ isL THEN <<v1[2]>> ELSE IF cmd2 = 72 /\ isL THEN <<v1[1]>> ELSE v1
-      np == [p EXCEPT !.x = ax, !.y = ay,
-                      !.x0 = IF u = 77 THEN ax ELSE @, !.y0 = IF u = 77 THEN ay ELSE @,
-                      !.cnan = ~isCub \/ cubLine, !.cx = IF isCub /\ ~cubLine THEN cp2x ELSE 0,
-                      !.cy = IF isCub /\ ~cubLine THEN cp2y ELSE 0,
-                      !.qnan = ~isQ \/ qLine, !.qx = IF isQ /\ ~qLine THEN qpx ELSE 0,
-                      !.qy = IF isQ /\ ~qLine THEN qpy ELSE 0]
-  IN [p |-> np,
-      out |-> IF dropL THEN [c |-> 0, a |-> <<>>] ELSE Emit(lo(cmd2), v2, rel, alt, p),
-      line |-> cubLine \/ qLine, dropped |-> dropL]
-
-CopyZ(p) == [p |-> [p EXCEPT !.x = p.x0, !.y = p.y0], out |-> [c |-> 122, a |-> <<>>]]   \* cx, cy, qx, qy untouched
-
----------------------------------------------------------------------------
-Init == si = S0 /\ so = S0 /\ d = D0 /\ n = 0 /\ last = Last0 /\ ok = TRUE
-
-Smooth(u) == u \in {83, 84}
-InputAllowed(u) ==
-  /\ n = 0 => u = 77
-  /\ (GuardZ /\ last.z) => u \in {77, 90}
-  /\ (GuardDeg /\ last.degc) => u # 83
-  /\ (GuardDeg /\ last.degq) => u # 84
+Init == si = S0 /\ so = S0 /\ d = D0 /\ n = 0 /\ exp = Exp0 /\ ok = TRUE
 
 SegsEq(a, b) == PathEq(Norm(a), Norm(b), 0)
 
-Step(u, v, rel, multi, alt) ==
+\* lastg: the coordinate set is the last one of its command; nxt: class of the command letter that follows
+\* (the set that follows a non-last set belongs to the same command)
+Step(u, v, rel, multi, lastg, nxt, alt) ==
   LET c == IF rel THEN u + 32 ELSE u
       ri == StepGroup(si, c, v)
   IN IF u = 90
      THEN LET r == CopyZ(d)  ro == StepGroup(so, r.out.c, <<>>) IN
           /\ si' = ri.st /\ so' = ro.st /\ d' = r.p
           /\ ok' = (SegsEq(<<ri.seg>>, <<ro.seg>>) /\ ri.st.x = ro.st.x /\ ri.st.y = ro.st.y)
-          /\ last' = [Last0 EXCEPT !.z = TRUE]
-     ELSE LET r == Copy(d, c, v, multi, alt)
+          /\ exp' = [Exp0 EXCEPT !.cls = nxt]
+     ELSE LET r == Copy(d, c, v, multi, lastg, nxt, alt)
               ro == IF r.out.c = 0 THEN [st |-> so, seg |-> <<"L", so.x, so.y, so.x, so.y, 0, 0, 0, 0, 0>>]
                     ELSE StepGroup(so, r.out.c, r.out.a)
           IN
-          /\ GuardZeroL => ~(si.pk # "N" /\ ZeroLine(Simplify(ri.seg)) /\ u \in {76, 67, 83, 81, 84})
           /\ si' = ri.st /\ so' = ro.st /\ d' = r.p
           /\ ok' = /\ SegsEq(<<ri.seg>>, <<ro.seg>>)
                    /\ ri.st.x = ro.st.x /\ ri.st.y = ro.st.y /\ ri.st.sx = ro.st.sx /\ ri.st.sy = ro.st.sy
                    /\ r.p.x = ri.st.x /\ r.p.y = ri.st.y            \* the shortener's cursor is the current point
-          /\ last' = [z |-> FALSE, degc |-> DegCubic(ri.seg), degq |-> DegQuad(ri.seg)]
+          /\ exp' = IF lastg THEN [Exp0 EXCEPT !.cls = nxt] ELSE [cls |-> Class(u), same |-> TRUE, u |-> u, rel |-> rel]
+
+Expected(u, rel, multi) ==
+  /\ n = 0 => u = 77
+  /\ exp.cls = "any" \/ exp.cls = Class(u)
+  /\ exp.same => (u = exp.u /\ rel = exp.rel /\ multi)
 
 Next == /\ n < MaxN /\ ok
-        /\ \E u \in Letters : InputAllowed(u) /\
-             \E v \in Args(u) : \E rel \in BOOLEAN : \E multi \in BOOLEAN : \E alt \in BOOLEAN :
+        /\ \E u \in Letters : \E v \in Args(u) : \E rel \in BOOLEAN : \E multi \in BOOLEAN : \E lastg \in BOOLEAN :
+             \E nxt \in {"S", "T", "O"} : \E alt \in BOOLEAN :
                 /\ (multi => u \in {67, 81, 83, 84})  \* only matters for curves (C -> S, Q -> T inside a run)
-                /\ Step(u, v, rel, multi, alt)
+                /\ (~multi => lastg)                  \* a command with one coordinate set
+                /\ (~lastg => nxt = "O")              \* (unused then)
+                /\ Expected(u, rel, multi)
+                /\ Step(u, v, rel, multi, lastg, nxt, alt)
                 /\ n' = n + 1
 Spec == Init /\ [][Next]_vars
 
@@ -159,6 +87,7 @@ InRange == ~si.bad /\ ~so.bad
 LettersAll == Upper
 LettersZ == {77, 67, 90}              \* M C Z
 LettersDeg == {77, 67, 83, 81, 84}     \* M C S Q T
+LettersForget == {77, 67}              \* M C
 LettersZeroL == {77, 67, 76, 83}       \* M C L S
 C4 == {-1, 0, 1, 2}
 C3 == {0, 1, 2}
